@@ -323,7 +323,14 @@ pub fn run() -> i32 {
         for t in [format!("a > e / _ {}", o), format!("a > e / {} _", o), format!("a > e / _ {} t", o), format!("a > e / t {} _", o), format!("a > e | _ {}", o), format!("* > e / {} _", o), format!("* > e / _ {} a", o), format!("a > * / _ {} #", o), format!("a t > & / {} _", o)] { r7.push(t); }
     } }
     for x in ["a", "t", "C", "V", "[]"] { for y in ["a", "t", "C", "V"] { for z in ["i", "t", "[+voice]", "i:[+long]", "$"] { r7.push(format!("{} {} > ⟨ta⟩ {}", x, y, z)); r7.push(format!("{} {} {} > ⟨ta⟩ {} {}", x, y, x, z, z)); } } }
-    let w7 = ["a.p.t.t.t.a", "ta.pa.ta.ta.ta", "pat", "a.t.t.t.a", "tatata", "ta.ta.ta", "attta", "ra.lo.la", "k.at", "ta.tat", "a", "a.ta", "ˈpaː.ta5"];
+    // optionals whose content is a set with a zero-width alternative (`({a,$},0)`): a repetition that consumed a segment can be followed by one that
+    // consumes nothing, any number of times
+    for st in ["{a,$}", "{$,a}", "{a,#}", "{#,a}", "{C,$}", "{$,%}"] { for cnt in ["0", "0:3", "1:", "1:0", "2"] { for tail in ["x", "", "t", "#"] {
+        r7.push(format!("t > d / _({},{}){}", st, cnt, tail));
+        r7.push(format!("t > d / {}({},{})_", tail, st, cnt));
+        r7.push(format!("* > e / _({},{}){}", st, cnt, tail));
+    } } }
+    let w7 = ["ta.pa", "ta", "pi.at", "a.p.t.t.t.a", "ta.pa.ta.ta.ta", "pat", "a.t.t.t.a", "tatata", "ta.ta.ta", "attta", "ra.lo.la", "k.at", "ta.tat", "a", "a.ta", "ˈpaː.ta5"];
     par_fold(r7.len(), 32, Acc::default, |i, a| rule_case(&r7[i], &w7, "stateful", a), |a| f7.merge(a));
     r.boxes.push(json!({"box": "7 ellipsis inputs with a tail / syllables written in place of segments / zero-width optionals with counts", "rules": r7.len(), "calls": f7.evals, "ok": f7.ok, "err": f7.err, "crash_classes": f7.crashes.len()}));
     r.guard(f7.ok > 5_000, "family 7: more than 5000 calls returned Ok");
